@@ -8,6 +8,7 @@
   Part D  what `decode` hands to the AEAD (binding), truncation, tampering = forgery
   Part E  ghost seal log of the client, nonce discipline
   Part F  ghost seal log of the server, session / handshake nonce discipline
+          (at the end: completeness of the server instrumentation, re-encoding of connect tokens)
 
   Everything lives in the namespace `RenetVerif.NcAead`, so that no name clashes with the other lemma files
   about the same model; nothing of the model is modified.
